@@ -373,15 +373,6 @@ fn search() {
             }
         }
     }
-    // SBN boundary (precondition C04.blockwriter.call.write_sbn_below_u32_max): only searched in the thorough tier,
-    // it is a documented caller obligation, reached after 2^32 - 1 accepted blocks
-    if thorough {
-        evals += 1;
-        let inp = Input { mode: 0, tl: 10, md5: 0, nblk: 1, blen: 4, skew: 2, fail_at: u64::MAX, sbn0: u32::MAX as u64 };
-        if check(&inp) {
-            found += 1;
-        }
-    }
     // seeded random
     let seed = std::env::var("VERIF_SEED").ok().and_then(|s| s.parse::<u64>().ok()).unwrap_or(0);
     let mut r = Rng(0x9E3779B97F4A7C15 ^ (seed.wrapping_mul(0x2545F4914F6CDD1D) | 1));
@@ -402,6 +393,17 @@ fn search() {
         };
         evals += 1;
         if found < 9 && check(&inp) {
+            found += 1;
+        }
+    }
+    // SBN boundary: `write` requires sbn < u32::MAX (C04.blockwriter.call.write_sbn_below_u32_max, a documented CALLER
+    // obligation: reached only after 2^32 - 1 accepted blocks).  The start SBN is injected into the private field, so
+    // this is not part of the default search; enable with VERIF_BW_SBN_BOUNDARY=1 or replay
+    // {"mode":0,"tl":10,"md5":0,"nblk":1,"blen":4,"skew":2,"fail_at":18446744073709551615,"sbn0":4294967295}
+    if std::env::var("VERIF_BW_SBN_BOUNDARY").is_ok() {
+        evals += 1;
+        let inp = Input { mode: 0, tl: 10, md5: 0, nblk: 1, blen: 4, skew: 2, fail_at: u64::MAX, sbn0: u32::MAX as u64 };
+        if check(&inp) {
             found += 1;
         }
     }
